@@ -237,13 +237,23 @@ struct Driver* device_manager_get_driver(const struct DeviceManager* self, const
 
 #if DEV == 2
 #ifndef SBS_START_STEP3
-/* mirrors:  state = self->tiff->set(self->tiff, &props);   CHECK(state == DeviceState_Armed);
- *           state = self->tiff->start(self->tiff);        CHECK(state == DeviceState_Running);   */
+/* mirrors:  state = self->tiff->state = self->tiff->set(self->tiff, &props);   CHECK(state == DeviceState_Armed);
+ *           state = self->tiff->state = self->tiff->start(self->tiff);        CHECK(state == DeviceState_Running);
+ * (before the fix of the tiff-json state defect the two assignments to self->tiff->state were
+ * missing: compile with -DSBS_PRE_FIX to see the check fail on that text) */
+#ifdef SBS_PRE_FIX
 #define SBS_START_STEP3                                                                    \
     state = self->tiff->set(self->tiff, &props);                                            \
     if (state != DeviceState_Armed) return DeviceState_AwaitingConfiguration;               \
     state = self->tiff->start(self->tiff);                                                  \
     if (state != DeviceState_Running) return DeviceState_AwaitingConfiguration;
+#else
+#define SBS_START_STEP3                                                                    \
+    state = self->tiff->state = self->tiff->set(self->tiff, &props);                        \
+    if (state != DeviceState_Armed) return DeviceState_AwaitingConfiguration;               \
+    state = self->tiff->state = self->tiff->start(self->tiff);                              \
+    if (state != DeviceState_Running) return DeviceState_AwaitingConfiguration;
+#endif
 #endif
 /* side_by_side_tiff_set / _start use std::filesystem and are NOT translated.  They are modelled
  * here by hand, statement for statement after steps 2 and 3 of the real side_by_side_tiff_start
